@@ -229,8 +229,11 @@ pub fn step_program(
     let end = {
         let mut rt = Runtime::new(&mut input, &mut output, args, program);
         let mut cur: Computation = rt.program.root.as_ref().clone();
+        let started = std::time::Instant::now();
         loop {
-            if steps >= fuel {
+            // fuel bound, plus a wall-clock bound (values can grow without bound, making single
+            // steps arbitrarily slow); both ends are "out of fuel", which every oracle treats as a pass
+            if steps >= fuel || (steps % 1024 == 1023 && started.elapsed().as_millis() > 1500) {
                 break RunEnd::OutOfFuel;
             }
             let kind = kind_of_compu(&cur);
@@ -273,14 +276,28 @@ impl Subject {
         let Ok(analysis) = &self.result else { return not("analysis error") };
         let linked = guarded(|| -> Result<zydeco_dynamics::syntax::DynamicsProgram, RunEnd> {
             match self.session.executable_program(analysis) {
-                | Ok(exe) => BuiltinRootLinker {
-                    scoped: exe.scoped,
-                    statics: exe.statics,
-                    root: exe.root,
-                    signature: exe.signature,
+                | Ok(exe) => {
+                    // the CLI's path first (result type must be the host's OS witness) ...
+                    let first = BuiltinRootLinker {
+                        scoped: exe.scoped.clone(),
+                        statics: exe.statics.clone(),
+                        root: exe.root,
+                        signature: exe.signature.clone(),
+                    }
+                    .run();
+                    match first {
+                        | Ok(p) => Ok(p),
+                        // ... else the tooling path for package-dependent computations with another result type
+                        | Err(_) => zydeco_dynamics::BuiltinComputationRootLinker {
+                            scoped: exe.scoped,
+                            statics: exe.statics,
+                            root: exe.root,
+                            signature: exe.signature,
+                        }
+                        .run()
+                        .map_err(|e| RunEnd::LinkError(format!("{e}"))),
+                    }
                 }
-                .run()
-                .map_err(|e| RunEnd::LinkError(format!("{e}"))),
                 | Err(zydeco_session::ExecutableError::NonBuiltinExecutable { .. }) => {
                     let Some(checked) = self.session.checked_program(analysis) else {
                         return Err(RunEnd::NotRunnable("not checked".into()));
